@@ -292,7 +292,9 @@ class DefaultNodeIO(BaseNodeIO):
             # We use os.scandir instead of os.walk because it gives
             # us DirEntry objects which have useful metadata in them
             for entry in os.scandir(path):
-                if entry.is_dir():
+                # Don't descend into symlinked directories: they may loop,
+                # or lead out of the node's tree
+                if entry.is_dir(follow_symlinks=False):
                     # Recurse
                     yield from _walk(entry)
                 # is_file() on a symlink to a file returns true, so we need both
